@@ -474,7 +474,7 @@ pub fn run(ctx: &Ctx) -> PropResult {
             judge_method(rec, n, gen_offset(rng), m, c, stratum);
         }
     }));
-    wls.push(Workload::cases("time_methods_random", ctx.n(200_000, 6_000_000), |rec, idx, rng| {
+    wls.push(Workload::cases("time_methods_random", ctx.count(200_000, 6_000_000), |rec, idx, rng| {
         let n = gen_time_nanos(rng);
         let m = (idx % 12) as usize;
         let (_, unit, dir) = TMETHODS[m];
@@ -489,10 +489,10 @@ pub fn run(ctx: &Ctx) -> PropResult {
         judge_time_time(rec, a, b, o1, o2, false, idx % 5 == 0);
         judge_time_time(rec, a, b, o1, o2, true, idx % 5 == 1);
     }));
-    wls.push(Workload::cases("time_binops_random", ctx.n(60_000, 2_000_000), |rec, idx, rng| {
+    wls.push(Workload::cases("time_binops_random", ctx.count(60_000, 2_000_000), |rec, idx, rng| {
         judge_time_time(rec, gen_time_nanos(rng), gen_time_nanos(rng), gen_offset(rng), gen_offset(rng), idx % 2 == 1, idx % 8 >= 6);
     }));
-    wls.push(Workload::cases("time_duration_ops", ctx.n(100_000, 3_000_000), |rec, idx, rng| {
+    wls.push(Workload::cases("time_duration_ops", ctx.count(100_000, 3_000_000), |rec, idx, rng| {
         let n = gen_time_nanos(rng);
         let (d, stratum): (Duration, &'static str) = match rng.below(7) {
             0 => (Duration::new(0, 0), "dur/zero"),
@@ -529,8 +529,19 @@ pub fn run(ctx: &Ctx) -> PropResult {
         for n in [0u64, 1, DN - 2, DN - 1, DN, DN + 1, 2 * DN - 1, 2 * DN, u32::MAX as u64, 1 << 32, (1 << 63) - 1, 1 << 63, u64::MAX - 1, u64::MAX] {
             judge_ctor(rec, 2, n, 0, 0);
         }
+        // whole-second / millisecond counts that wrap a 32-bit intermediate back into the day
+        for unit in [1_000_000_000u128, 1_000_000, 60_000_000_000] {
+            for k in 1..=4u128 {
+                for r in [0u128, 1, 43_200_000_000_000, DN as u128 - 1] {
+                    let x = k * (1u128 << 32) * unit + r;
+                    if x <= u64::MAX as u128 {
+                        judge_ctor(rec, 2, x as u64, 0, 0);
+                    }
+                }
+            }
+        }
     }));
-    wls.push(Workload::cases("constructors_random", ctx.n(60_000, 1_000_000), |rec, idx, rng| match idx % 3 {
+    wls.push(Workload::cases("constructors_random", ctx.count(60_000, 1_000_000), |rec, idx, rng| match idx % 3 {
         0 => {
             let f = |rng: &mut Rng, max: u64| -> u32 {
                 match rng.below(4) {
@@ -558,11 +569,11 @@ pub fn run(ctx: &Ctx) -> PropResult {
             judge_ctor(rec, 2, n, 0, 0);
         }
     }));
-    wls.push(Workload::cases("time_from_datetime", ctx.n(80_000, 3_000_000), |rec, idx, rng| {
+    wls.push(Workload::cases("time_from_datetime", ctx.count(80_000, 3_000_000), |rec, idx, rng| {
         let (i, _) = gen_instant(rng, 2);
         judge_from_datetime(rec, i, gen_offset(rng), idx % 2 == 1);
     }));
-    wls.push(Workload::cases("api_walks", ctx.n(40_000, 1_500_000), |rec, _, rng| walk(rec, rng)));
+    wls.push(Workload::cases("api_walks", ctx.count(40_000, 1_500_000), |rec, _, rng| walk(rec, rng)));
     let out = run_workloads(ctx, wls);
     let mut meta = PropMeta::default();
     meta.rule = format!(
